@@ -144,6 +144,9 @@ structure S (α : Type) where
   w : Option (W α) := none
   poly : List (Mono α) := []
   lastOk : Bool := true
+  /-- names of the list handed to `updateDerivatives` by the last operation, when that operation was an
+  entry point that returned (`none` after anything else that changes the wrapper) -/
+  lastListed : Option (List Nat) := none
 
 def curFn (s : S α) : Option (Fn α) :=
   match s.w with
@@ -217,19 +220,19 @@ def stepModel (s : S α) (op : List String) : Option (S α × String) :=
       let scheme : Scheme := if sch == "2" then .two else if sch == "3" then .three else .five
       let w : W α := { scheme := scheme, h := h, vars := [], der1 := [], der2 := [], cross := [], c1 := true, c2 := true, cx := false,
                        f1 := zero, f2 := zero, f3 := zero, fn := fn }
-      some ({ s with w := some w }, "ok r=" ++ Codec.render h ++ stateStr (some w) fn)
+      some ({ s with w := some w, lastListed := none }, "ok r=" ++ Codec.render h ++ stateStr (some w) fn)
     | _, _ => none
   | ["interval", h] =>
     match s.w, (Codec.parse h : Option α) with
     | some w, some h =>
       let w := { w with h := h }
-      some ({ s with w := some w }, "ok r=" ++ Codec.render w.h ++ stateStr (some w) w.fn)
+      some ({ s with w := some w, lastListed := none }, "ok r=" ++ Codec.render w.h ++ stateStr (some w) w.fn)
     | _, _ => none
   | ["fnenable", a, b] =>
     match curFn s with
     | some fn =>
       let fn := (fn.enable1 (a == "1")).enable2 (b == "1")
-      some (putFn s fn, "ok r=-" ++ stateStr s.w fn)
+      some ({ putFn s fn with lastListed := none }, "ok r=-" ++ stateStr s.w fn)
     | none => none
   | ["copy"] | ["assign"] =>
     -- copy constructor / assignment operator: every field is taken over, the wrapped function is shared
@@ -241,7 +244,7 @@ def stepModel (s : S α) (op : List String) : Option (S α × String) :=
     | some fn, some (pl, _) =>
       let f := polyEval s.poly []
       let (fn', e) := fn.setParameters f pl
-      some (putFn s (clearLog fn'), statusStr e ++ " r=-" ++ stateStr s.w fn')
+      some ({ putFn s (clearLog fn') with lastListed := none }, statusStr e ++ " r=-" ++ stateStr s.w fn')
     | _, _ => none
   | "vars" :: k :: r =>
     match s.w, nat? k with
@@ -249,21 +252,21 @@ def stepModel (s : S α) (op : List String) : Option (S α × String) :=
       match (r.take k).mapM nat? with
       | some vs =>
         let w := w.setVars vs
-        some ({ s with w := some w }, "ok r=-" ++ stateStr (some w) w.fn)
+        some ({ s with w := some w, lastListed := none }, "ok r=-" ++ stateStr (some w) w.fn)
       | none => none
     | _, _ => none
   | ["enable", a, b, c] =>
     match s.w with
     | some w =>
       let w := { w with c1 := a == "1", c2 := b == "1", cx := c == "1" }
-      some ({ s with w := some w }, "ok r=" ++ showBool w.c1 ++ showBool w.c2 ++ showBool w.cx ++ stateStr (some w) w.fn)
+      some ({ s with w := some w, lastListed := none }, "ok r=" ++ showBool w.c1 ++ showBool w.c2 ++ showBool w.cx ++ stateStr (some w) w.fn)
     | none => none
   | ["en1", a] | ["en2", a] | ["enx", a] =>
     match s.w with
     | some w =>
       let o := op.headD ""
       let w := if o == "en1" then { w with c1 := a == "1" } else if o == "en2" then { w with c2 := a == "1" } else { w with cx := a == "1" }
-      some ({ s with w := some w }, "ok r=" ++ showBool w.c1 ++ showBool w.c2 ++ showBool w.cx ++ stateStr (some w) w.fn)
+      some ({ s with w := some w, lastListed := none }, "ok r=" ++ showBool w.c1 ++ showBool w.c2 ++ showBool w.cx ++ stateStr (some w) w.fn)
     | none => none
   | "get" :: what :: r =>
     match s.w with
@@ -285,7 +288,7 @@ def stepModel (s : S α) (op : List String) : Option (S α × String) :=
     | some w, some n, some v =>
       let f := polyEval s.poly []
       let (w', e, _) := w.call f (.setOne n v)
-      some ({ s with w := some { w' with fn := clearLog w'.fn }, lastOk := e.isNone }, statusStr e ++ " r=-" ++ stateStr (some w') w'.fn)
+      some ({ s with w := some { w' with fn := clearLog w'.fn }, lastOk := e.isNone, lastListed := if e.isNone then some [n] else none }, statusStr e ++ " r=-" ++ stateStr (some w') w'.fn)
     | _, _, _ => none
   | "df" :: n :: r | "d2f" :: n :: r =>
     -- `FirstOrderDerivable::df` / `SecondOrderDerivable::d2f` (Functions.h:138, 193): `setParameters` then the getter
@@ -299,7 +302,7 @@ def stepModel (s : S α) (op : List String) : Option (S α × String) :=
         | some x, _ => excStr x ++ " r=-"
         | none, .ok d => "ok r=" ++ rD d
         | none, .error x => excStr x ++ " r=-"
-      some ({ s with w := some { w' with fn := clearLog w'.fn }, lastOk := e.isNone }, ans ++ stateStr (some w') w'.fn)
+      some ({ s with w := some { w' with fn := clearLog w'.fn }, lastOk := e.isNone, lastListed := if e.isNone then some (pl.map (·.name)) else none }, ans ++ stateStr (some w') w'.fn)
     | _, _, _ => none
   | "d2fx" :: n :: m :: r =>
     match s.w, nat? n, nat? m, pList (α := α) r with
@@ -311,7 +314,7 @@ def stepModel (s : S α) (op : List String) : Option (S α × String) :=
         | some x, _ => excStr x ++ " r=-"
         | none, .ok d => "ok r=" ++ rD d
         | none, .error x => excStr x ++ " r=-"
-      some ({ s with w := some { w' with fn := clearLog w'.fn }, lastOk := e.isNone }, ans ++ stateStr (some w') w'.fn)
+      some ({ s with w := some { w' with fn := clearLog w'.fn }, lastOk := e.isNone, lastListed := if e.isNone then some (pl.map (·.name)) else none }, ans ++ stateStr (some w') w'.fn)
     | _, _, _, _ => none
   | o :: r =>
     match s.w, pList (α := α) r with
@@ -325,7 +328,7 @@ def stepModel (s : S α) (op : List String) : Option (S α × String) :=
       | some ent =>
         let (w', e, b) := w.call f ent
         let r := if e.isSome then "-" else if o == "match" then showBool b else if o == "f" then Codec.render w'.value else "-"
-        some ({ s with w := some { w' with fn := clearLog w'.fn }, lastOk := e.isNone }, statusStr e ++ " r=" ++ r ++ stateStr (some w') w'.fn)
+        some ({ s with w := some { w' with fn := clearLog w'.fn }, lastOk := e.isNone, lastListed := if e.isNone then some (pl.map (·.name)) else none }, statusStr e ++ " r=" ++ r ++ stateStr (some w') w'.fn)
       | none => none
     | _, _ => none
   | _ => none
@@ -363,6 +366,18 @@ def entryOf (op : List String) : Option (Entry α) :=
       else if o == "f" then some (.f pl) else none
     | none => none
   | _ => none
+
+/-- what a recomputation of every selected variable at the current point stores: the same wrapper
+updated with the wrapped function's whole list (`none` when that raises) -/
+def recompute (f : List α → α) (w : W α) : Option (W α) :=
+  let r := w.update f w.fn.params
+  if r.2.isSome then none else some r.1
+
+/-- indices of the selected variables `updateDerivatives` skips because the list it was handed does
+not mention them (`if (!parameters.hasParameter(var)) continue;`, Two:40, Three:42, Five:27) -/
+def unlisted (w : W α) (listed : List Nat) : List (Nat × Nat) :=
+  (List.zip (List.range w.vars.length) w.vars).filter (fun (iv : Nat × Nat) =>
+    idx w.vars iv.2 == some iv.1 && has w.fn.params iv.2 && !listed.contains iv.2)
 
 /-- transparency and feasibility of the probes, judged on the implementation's answer `t` to the
 entry-point `op` issued in state `s` (the pre-state of the model) -/
@@ -432,6 +447,31 @@ def verdictEntry (s : S α) (w : W α) (ent : Entry α) (t : List String) : Stri
           | some q => !q.violates x
           | none => true)))
   if !pts.all okPt then "FAIL:probes_feasible" else
+  -- every selected variable — also one the caller's list does not mention — has the derivatives of the
+  -- scheme at the CURRENT point: what a recomputation with the wrapped function's whole list stores
+  -- (known finding C12-unlisted-selected-stale: `updateDerivatives` skips such a variable)
+  let stale : Bool :=
+    if !implOk || !w.c1 || fe.isSome then false else
+    let r1 := w.call f ent
+    if r1.2.1.isSome then false else
+    let w1 := r1.1
+    match recompute f w1 with
+    | none => false
+    | some wr =>
+      let i1 := section_ t "D1" markers
+      let i2 := section_ t "D2" markers
+      let ix := chunks w.vars.length (section_ t "X" markers)
+      let listed := callerList.map (·.name)
+      let unl := unlisted w1 listed
+      let valid := (List.zip (List.range w.vars.length) w.vars).filter (fun (iv : Nat × Nat) =>
+        idx w.vars iv.2 == some iv.1 && has w1.fn.params iv.2)
+      unl.any (fun iv => i1[iv.1]? != (wr.der1[iv.1]?).map rD ||
+        (w.scheme != .two && i2[iv.1]? != (wr.der2[iv.1]?).map rD)) ||
+      (w.scheme == .three && w.cx &&
+        valid.any (fun iv => valid.any (fun jv => iv.1 != jv.1 &&
+          (!listed.contains iv.2 || !listed.contains jv.2) &&
+          (ix.getD iv.1 [])[jv.1]? != ((wr.cross.getD iv.1 [])[jv.1]?).map rD)))
+  if stale then "FAIL:stale_derivative" else
   -- one-sided fall-back: a selected variable with room for the probes on one side at least gets its
   -- derivatives (no NaN marker, no exception) — judged when no precision is involved
   let callerNoPrec := callerList.all (fun p => eqb p.prec zero)
@@ -460,6 +500,19 @@ def verdictEntry (s : S α) (w : W α) (ent : Entry α) (t : List String) : Stri
   -- (a call that raises is judged above: `transparent_on_raise`)
   let bad := implOk && sel.any (fun iv => room iv && d1.getD iv.1 "nan" == "nan")
   if bad then "FAIL:one_sided_fallback" else
+  -- five-point scheme: its one-sided formulas need TWO steps on one side; with room for one step only
+  -- (and less than two on either side) it stores the NaN marker although "one-sided probes" would be
+  -- possible (known finding C12-5pt-needs-two-steps)
+  let room1 (iv : Nat × Nat) : Bool :=
+    match find? fnB.params iv.2 with
+    | none => false
+    | some b =>
+      let x := b.value
+      let hh := (one + abs x) * w.h
+      (feasibleAt iv.2 (x - hh) || feasibleAt iv.2 (x + hh)) && gtb w.h zero
+  let bad5 := implOk && w.scheme == .five &&
+    sel.any (fun iv => idx w.vars iv.2 == some iv.1 && room1 iv && !room iv && d1.getD iv.1 "nan" == "nan")
+  if bad5 then "FAIL:five_point_needs_two_steps" else
   -- two-point scheme, all ten tries (left, right, then halved steps alternately): the NaN marker only
   -- when none of them is accepted by the constraints with a value below VERY_BIG
   let tries (h0 : α) : List α :=
@@ -479,7 +532,7 @@ def verdictEntry (s : S α) (w : W α) (ent : Entry α) (t : List String) : Stri
 /-- delegation: a derivative of a non-selected variable (or with numerical derivatives switched
 off) is the wrapped function's analytical derivative at the current point -/
 def verdictGet (s : S α) (w : W α) (what : String) (ns : List Nat) (t : List String) : String :=
-  if !s.lastOk then "ok" else
+  if !s.lastOk then "-" else
   let D := polyDeriv s.poly
   let x := values w.fn.params
   let own (n : Nat) := posOf w.fn.params n
@@ -500,8 +553,37 @@ def verdictGet (s : S α) (w : W α) (what : String) (ns : List Nat) (t : List S
       else none
     | _, _ => none
   match want with
-  | none => "ok"
   | some v => if t == ["ok", "r=" ++ Codec.render v] then "ok" else "FAIL:delegation_spec"
+  | none =>
+    -- a selected variable: the stored value was judged at the entry point that computed it, unless
+    -- that entry point's list did not mention the variable — then it must be the value a
+    -- recomputation at the current point gives (known finding C12-unlisted-selected-stale)
+    let f := polyEval s.poly []
+    match s.lastListed with
+    | none => "-"
+    | some listed =>
+      match recompute f w with
+      | none => "-"
+      | some wr =>
+        let un (n : Nat) : Option Nat := ((unlisted w listed).find? (fun iv => iv.2 == n)).map (·.1)
+        let judge (d : Option (DVal α)) : String :=
+          match d with
+          | some d => if t == ["ok", "r=" ++ rD d] then "ok" else "FAIL:stale_derivative"
+          | none => "-"
+        match what, ns with
+        | "d1", [n] => if w.c1 then (match un n with
+          | some i => judge wr.der1[i]?
+          | none => "-") else "-"
+        | "d2", [n] => if w.c1 && w.c2 && w.scheme != .two then (match un n with
+          | some i => judge wr.der2[i]?
+          | none => "-") else "-"
+        | "dx", [n, m] =>
+          if w.c1 && w.cx && w.scheme == .three && n != m && (un n).isSome || (w.c1 && w.cx && w.scheme == .three && n != m && (un m).isSome) then
+            match idx w.vars n, idx w.vars m with
+            | some i, some j => if has w.fn.params n && has w.fn.params m then judge ((wr.cross.getD i [])[j]?) else "-"
+            | _, _ => "-"
+          else "-"
+        | _, _ => "-"
 end
 
 /-! ### exactness predicates (rational run) -/
@@ -552,7 +634,7 @@ def verdictExact (poly : List (Mono Rat)) (wPre wB : W Rat) (callerList : PList 
       else if wB.scheme != .two && deg ≤ 2 && !exactTok i2 a2 true then "FAIL:d2_exact_deg2"
       -- without constraints the probes are symmetric
       else if fr && wB.scheme == .two && deg ≤ 1 && !exactTok i1 a1 false then "FAIL:two_point_exact_deg1"
-      -- (three-point scheme: symmetric for a positive step, the hypothesis of `three_point_stored_exact`;
+      -- (three-point scheme: symmetric for a positive step, the hypothesis of `three_point_stored_exact_partial`;
       -- with a negative step the second probe is on the same side as the first one)
       else if fr && wB.scheme == .three && decide (wB.h > 0) && deg ≤ 2 && !exactTok i1 a1 false then "FAIL:three_point_d1_exact_deg2"
       else if fr && wB.scheme == .three && decide (wB.h > 0) && deg ≤ 3 && !exactTok i2 a2 false then "FAIL:three_point_d2_exact_deg3"
@@ -567,7 +649,8 @@ def verdictExact (poly : List (Mono Rat)) (wPre wB : W Rat) (callerList : PList 
       if acc != "ok" || iv.1 == jv.1 then acc else
       match posOf own iv.2, posOf own jv.2 with
       | some k, some l =>
-        if free iv.2 && free jv.2 && degIn poly k ≤ 2 && degIn poly l ≤ 2 then
+        -- (constraints or not: when the call returns, the 2×2 stencil was evaluated in full)
+        if degIn poly k ≤ 2 && degIn poly l ≤ 2 then
           let tok := ((xs.getD iv.1 []).getD jv.1 "nan")
           if exactTok tok (D.dx k l x) false then acc else "FAIL:cross_exact"
         else acc
